@@ -31,7 +31,7 @@ def _ae_msg(inp, p, m, n, base_hi=3):
     return msg, mterm, mci, pli, plt, entries
 
 
-@obligation('R1', props=('C01', 'C04', 'C03', 'C05'),
+@obligation('R1', props=('C01', 'C04', 'C03', 'C05', 'C07'),
             quick=[dict(N=3, n=n, m=m) for n in (1, 2, 3) for m in (0, 1, 2)],
             thorough=[dict(N=3, n=n, m=m) for n in (1, 2, 3, 4, 5) for m in (0, 1, 2, 3)] + [dict(N=2, n=2, m=1), dict(N=5, n=2, m=1)],
             stubs=_STUBS,
